@@ -83,11 +83,13 @@ type PathState struct {
 	names     map[string]string
 	facts     map[string]bool
 	fs        *FSModel
+	routes    []route
+	overrides map[string]Value
 }
 
 func newPathState(prefix []int32) *PathState {
 	return &PathState{prefix: prefix, reach: map[string]bool{}, touched: map[string]bool{}, env: map[string]Value{},
-		locks: map[string]*lockState{}, names: map[string]string{}, facts: map[string]bool{}}
+		locks: map[string]*lockState{}, names: map[string]string{}, facts: map[string]bool{}, overrides: map[string]Value{}}
 }
 
 type workItem struct{ prefix []int32 }
@@ -587,5 +589,6 @@ func (vm *VM) obligation(c *Term, id string) {
 		return
 	}
 	vm.recordViolation(id, "assertion can be violated", neg)
-	vm.assume(c)
+	// exploration continues without assuming c, so that later obligations of the same path
+	// are still evaluated (they are judged on their own)
 }
